@@ -57,7 +57,7 @@ def ceremony(t):
     given = None if given == '-' else int(given)
     cpath = int(cpath)
     COUNT[0] += 1
-    tagname = 'c10_%d' % COUNT[0]
+    tagname = 'c10_%d_%d' % (os.getpid(), COUNT[0])
     hd = [HDKey.from_seed(bytes.fromhex(s), network=NW, witness_type=wt) for s in seeds.split(',')]
     per_addr_childs = [a.split(',') for a in addrs.split(';')]
     ws = []
